@@ -47,8 +47,16 @@ class RngSeam:
         torch.rand_like = self._rand_like
         for name in ("bernoulli", "bernoulli_"):
             self._orig_tensor[name] = getattr(torch.Tensor, name)
-        torch.Tensor.bernoulli = self._t_bernoulli
-        torch.Tensor.bernoulli_ = self._t_bernoulli_
+        seam = self
+
+        def t_bernoulli(tensor, *a, **k):
+            return seam._t_bernoulli(tensor, *a, **k)
+
+        def t_bernoulli_(tensor, *a, **k):
+            return seam._t_bernoulli_(tensor, *a, **k)
+
+        torch.Tensor.bernoulli = t_bernoulli
+        torch.Tensor.bernoulli_ = t_bernoulli_
         self.installed = True
 
     def uninstall(self):
